@@ -1,61 +1,180 @@
 //! C01: Merge::simplify / flatten / update_from_simplified on Merge<u8>.
+//!
+//! Index layout (a case is a function of (seed, tier, index) only):
+//!   0..E       exhaustive supplement: every merge of arity 1,3,5 over 3 values (quick, E = 273),
+//!              plus arity 7 in the thorough tier (E = 2460);
+//!   E..        seeded cases from the pools below (arity >= 3 dominant).
 use jj_lib::merge::Merge;
-use jjv::coq;
 use jjv::Rng;
+use jjv::coq;
 
-fn gen_terms(rng: &mut Rng, max_sides: u64, alphabet: u64) -> Vec<u8> {
-    // arity 1,3,5,... geometric, small alphabet so equalities happen
-    let sides = 1 + rng.geometric(max_sides - 1);
+const FRESH: u8 = 100; // first of the pairwise distinct probe values; terms are < 50
+
+/// (pool name, terms)
+fn gen_terms(rng: &mut Rng, max_extra_sides: u64, alphabet: u64) -> (&'static str, Vec<u8>) {
+    // arity 1 is rare; 3.. dominant
+    let sides = if rng.chance(1, 16) {
+        1
+    } else {
+        2 + rng.below(3) + rng.geometric(max_extra_sides)
+    };
     let len = (2 * sides - 1) as usize;
-    match rng.below(10) {
-        0 => vec![rng.below(alphabet) as u8; len], // all equal
-        1 => (0..len).map(|i| (i % 2) as u8).collect(), // alternating a b a b a
-        _ => (0..len).map(|_| rng.below(alphabet) as u8).collect(),
+    match rng.below(16) {
+        0 => ("allequal", vec![rng.below(alphabet) as u8; len]),
+        1 => ("alternating", (0..len).map(|i| (i % 2) as u8).collect()),
+        2 | 3 | 4 => {
+            // Permutation pool: adds are pairwise distinct, removes are a shuffled selection of
+            // the add values (sometimes with one foreign value). Every cancellation moves an
+            // add to another slot, so later pairs cancel only after earlier cancellations and
+            // all three cursor/remove orders (before, at, after the cursor) occur.
+            let k = sides as usize;
+            let mut adds: Vec<u8> = (0..k as u8).collect();
+            rng.shuffle(&mut adds);
+            let mut pool: Vec<u8> = adds.clone();
+            rng.shuffle(&mut pool);
+            let mut removes: Vec<u8> = pool.into_iter().take(k - 1).collect();
+            if !removes.is_empty() && rng.chance(1, 3) {
+                let j = rng.usize(removes.len());
+                removes[j] = 40 + rng.below(2) as u8;
+            }
+            if !removes.is_empty() && rng.chance(1, 4) {
+                // a repeated remove: only one of the two can cancel
+                let j = rng.usize(removes.len());
+                let j2 = rng.usize(removes.len());
+                removes[j] = removes[j2];
+            }
+            let mut t = Vec::with_capacity(len);
+            for i in 0..k {
+                t.push(adds[i]);
+                if i + 1 < k {
+                    t.push(removes[i]);
+                }
+            }
+            ("perm", t)
+        }
+        5 | 6 => {
+            // Chain pool: start from a short merge and repeatedly splice in a cancelling
+            // (remove v, add v) pair whose two halves are far apart, around existing terms.
+            let mut t: Vec<u8> = vec![rng.below(alphabet) as u8];
+            while t.len() < len {
+                let v = if rng.chance(1, 2) { rng.below(alphabet) as u8 } else { 10 + rng.below(3) as u8 };
+                // insert v as a new add and as a new remove at independent places
+                let adds_n = t.len() / 2 + 1;
+                let a_slot = rng.usize(adds_n + 1); // new add becomes add number a_slot
+                let r_slot = rng.usize(adds_n); // new remove becomes remove number r_slot
+                let mut adds: Vec<u8> = t.iter().copied().step_by(2).collect();
+                let mut removes: Vec<u8> = t.iter().copied().skip(1).step_by(2).collect();
+                adds.insert(a_slot, v);
+                removes.insert(r_slot, v);
+                t = Vec::with_capacity(adds.len() + removes.len());
+                for i in 0..adds.len() {
+                    t.push(adds[i]);
+                    if i < removes.len() {
+                        t.push(removes[i]);
+                    }
+                }
+            }
+            ("chain", t)
+        }
+        _ => ("random", (0..len).map(|_| rng.below(alphabet) as u8).collect()),
     }
+}
+
+fn exhaustive(max_len: usize) -> Vec<Vec<u8>> {
+    let mut out = vec![];
+    for len in (1..=max_len).step_by(2) {
+        for code in 0..3usize.pow(len as u32) {
+            let mut c = code;
+            out.push(
+                (0..len)
+                    .map(|_| {
+                        let d = (c % 3) as u8;
+                        c /= 3;
+                        d
+                    })
+                    .collect(),
+            );
+        }
+    }
+    out
 }
 
 fn main() {
     jjv::run("C01", "C01", |ctx| {
+        let thorough = ctx.tier == "thorough";
+        let exh = exhaustive(if thorough { 7 } else { 5 });
+        ctx.note(format!("exhaustive supplement: indices 0..{} (arity <= {} over 3 values)", exh.len(), if thorough { 7 } else { 5 }));
         for i in ctx.indices() {
             let mut rng = ctx.rng(i);
             let alphabet = rng.range(2, 4);
-            let terms = gen_terms(&mut rng, 8, alphabet);
+            let (pool, terms) = if i < exh.len() {
+                ("exhaustive", exh[i].clone())
+            } else {
+                gen_terms(&mut rng, if thorough { 14 } else { 7 }, alphabet)
+            };
             let m = Merge::from_vec(terms.clone());
             let simplified = m.simplify();
-            // nested merge: outer arity 1..3 sides, inner arity 1..3 sides
-            let outer_sides = 1 + rng.geometric(2);
+            let resimplified = simplified.simplify();
+            let slen = simplified.as_slice().len();
+
+            // Observe get_simplified_mapping(): write pairwise distinct fresh values back.
+            let fresh: Vec<u8> = (0..slen).map(|j| FRESH + j as u8).collect();
+            let probed = m.clone().update_from_simplified(Merge::from_vec(fresh.clone()));
+            let mapping: Vec<u64> = fresh
+                .iter()
+                .map(|f| {
+                    let hits: Vec<usize> =
+                        probed.iter().enumerate().filter(|(_, x)| *x == f).map(|(p, _)| p).collect();
+                    if hits.len() == 1 { hits[0] as u64 } else { 9999 }
+                })
+                .collect();
+
+            // nested merge: outer arity 1..7, inner arity 1..7; pools: all inner terms
+            // resolved / removes conflicted / mixed
+            let outer_sides = 1 + rng.geometric(3);
+            let nest_pool = rng.below(5);
             let nested_terms: Vec<Vec<u8>> = (0..2 * outer_sides - 1)
-                .map(|_| gen_terms(&mut rng, 3, alphabet))
+                .map(|k| match nest_pool {
+                    0 => vec![rng.below(alphabet) as u8],
+                    1 if k % 2 == 0 => vec![rng.below(alphabet) as u8],
+                    _ => {
+                        let sides = 1 + rng.geometric(3);
+                        (0..2 * sides - 1).map(|_| rng.below(alphabet) as u8).collect()
+                    }
+                })
                 .collect();
             let nested = Merge::from_vec(
-                nested_terms
-                    .iter()
-                    .map(|t| Merge::from_vec(t.clone()))
-                    .collect::<Vec<_>>(),
+                nested_terms.iter().map(|t| Merge::from_vec(t.clone())).collect::<Vec<_>>(),
             );
             let flat = nested.flatten();
+
             // edit the simplified form at random positions with fresh or existing values
             let mut edit: Vec<u8> = simplified.iter().copied().collect();
-            let edits = rng.geometric(3);
+            let edits = rng.geometric(4);
             for _ in 0..edits {
                 let k = rng.usize(edit.len());
-                edit[k] = if rng.chance(1, 2) { 100 + rng.below(3) as u8 } else { rng.below(alphabet) as u8 };
+                edit[k] = if rng.chance(1, 2) { 60 + rng.below(3) as u8 } else { rng.below(alphabet) as u8 };
             }
             let updated = m.clone().update_from_simplified(Merge::from_vec(edit.clone()));
+
             let l = |v: &[u8]| coq::list(v.iter(), |x| coq::n(*x as u64));
             let term = coq::app(
                 "C01.mk_case",
                 &[
                     l(&terms),
                     l(simplified.as_slice()),
+                    l(resimplified.as_slice()),
+                    coq::list(mapping.iter(), |x| coq::n(*x)),
                     coq::list(nested_terms.iter(), |t| l(t)),
                     l(flat.as_slice()),
                     l(&edit),
                     l(updated.as_slice()),
                 ],
             );
-            let nontrivial = simplified.as_slice().len() < terms.len() && terms.len() >= 3;
-            let shape = format!("arity={} simplified={}", terms.len(), simplified.as_slice().len());
+            let nontrivial = slen < terms.len() && terms.len() >= 3;
+            let bucket = |n: usize| if n >= 9 { "9+".to_string() } else { n.to_string() };
+            let shape = format!("{} arity={}", pool, bucket(terms.len()));
+            ctx.count(&format!("cancelled_pairs={}", ((terms.len() - slen) / 2).min(5)));
             ctx.emit(i, term, nontrivial, &shape);
         }
     });
